@@ -156,14 +156,21 @@ def witnessNestedArray : List Tok :=
   [fstart "SUM", ⟨"", .subexpr, .start⟩, fstart "ARRAY", fstart "ARRAYROW", fstart "ARRAY", fstart "ARRAYROW",
    num "1", fstop, fstop, fstop, fstop, ⟨"", .subexpr, .stop⟩, fstop]
 
-/-- **Open finding (code and model agree): the "no array constant" hypothesis of
-`eval_no_panic_functions` is still necessary.**  A NESTED array constant — `SUM(({{1}}))` — is
-properly nested as a token list, but the two array flags are booleans: the inner constant's
-stop tokens clear them, the outer constant's stop tokens then close `SUM` itself, and the
-`)` finds `optStack` empty.  Reproduced on the real code after fix fecba5e; a repair needs
-a counter (or stack) of open array constants instead of two booleans. -/
-theorem finding_nested_array_constant_panics :
-    nested [] 0 witnessNestedArray = true ∧ evalTokens semU witnessNestedArray = .panic := by decide
+/-- regression of the repaired defect "nested array constants overwrite the evaluator's array
+flags" (`SUM(({{1}}))`, `SUM((MAX({SUM({1})})))` panicked in `parseToken`; repository fix
+9c11688: the open array constants are a stack, `St.arrs`). -/
+theorem fixed_nested_array_constant_witness :
+    nested [] 0 witnessNestedArray = true ∧ evalTokens semU witnessNestedArray = .ok () := by decide
+
+/-- what is left of the "no array constant" hypothesis after fix 9c11688: in the model only a
+list no tokenizer emits — an ARRAYROW start without an enclosing ARRAY start, which the
+evaluator ignores while the checker `nested` counts it as an opening bracket — still panics.
+(Enumerating the model over all `nested` lists of ≤ 6 tokens over an 11-token alphabet finds
+no other panic; the array-aware version of `eval_no_panic_functions` is not proved.) -/
+theorem finding_model_arrayrow_without_array_panics :
+    nested [] 0 [fstart "SUM", ⟨"", .subexpr, .start⟩, fstart "ARRAYROW", fstop, ⟨"", .subexpr, .stop⟩] = true ∧
+    evalTokens semU [fstart "SUM", ⟨"", .subexpr, .start⟩, fstart "ARRAYROW", fstop, ⟨"", .subexpr, .stop⟩] = .panic := by
+  decide
 
 /-! ## deep nesting ("deep nesting … in bounded time without panicking": no stack overflow) -/
 
